@@ -6,6 +6,7 @@
   as possible: a queue is subscribed to at most one channel and, for every frame processed while it
   is subscribed and the channel is enabled, receives that frame's samples of the channel, in order.
 -/
+import NxsModel.Gen.CfgShape
 import NxsModel.Fanout
 import NxsModel.Lemmas.Fanout
 namespace Nxs.C08
@@ -440,6 +441,14 @@ theorem empty_frames_neutral (s : St) (fl : Nat) (ss : List Smp)
 theorem groups_nonempty (n : Nat) (ops : List Op) :
     ∀ e ∈ (run (St.init n) ops).queues, ∀ g ∈ e.2, g ≠ [] :=
   groupsNonempty_run _ ops (groupsNonempty_init n)
+
+/-- the fan-out code that `Fanout.lean` transcribes is present in the current source (regenerated
+    facts): the stream thread groups the samples of enabled channels and puts each group on every queue
+    of its channel under the queue lock; sub/unsub edit the subscriber lists under the same lock; the
+    single receive thread routes stream frames to the stream queue in arrival order -/
+theorem source_shape :
+    Gen.CfgShape.fanoutShape = true ∧ Gen.CfgShape.subUnsubShape = true ∧
+    Gen.CfgShape.recvRouteShape = true := by decide
 
 example : received (run (St.init 3) [.sub 1, .sub 1, .sub 0, .setEnabled [true, true, false],
     .frame 0 [⟨1, 0⟩, ⟨0, 1⟩, ⟨1, 2⟩, ⟨2, 3⟩], .unsub 0, .frame 1 [⟨1, 4⟩], .frame 0 []]) 1 = [0, 2, 4] := by
